@@ -50,6 +50,101 @@ Theorem C18_cached_models_survive : forall fs fs' c f s e s' k v,
 Proof. exact after_failure_cache_serves. Qed.
 Print Assumptions C18_cached_models_survive.
 
+(* LAST CLAUSE OF C18 ("after the failing file is corrected, the next load succeeds with correct identities"), at full
+   strength.  load_main ends with the garbage collection of Model/Repo.v (`tidy`): after a failure the models of the
+   attempt - unreachable by C18_clean, which is proved on the un-collected load_main_raw - are dropped.  Then the
+   state after a failed load equals the state before it in every component but the file-open trace of the failed
+   attempt itself (C18_failed_load_restores_state), hence EVERY following load, on whatever the files have been
+   rewritten to, is literally the load that would have happened had the failed attempt never taken place: same
+   outcome (in particular it succeeds iff it would have), same file-open trace, same repositories, local models,
+   reference targets and model identities (C18_reload_as_if_never_failed); so all C17 theorems about that load
+   apply unchanged, and a failing load can be deleted from any history (C18_failing_load_is_invisible).
+   `Tidy` (normal form of the per-model tables) holds initially and after every load (C18_histories_stable_tidy). *)
+Theorem C18_failed_load_restores_state : forall fs c f s e s',
+  Stable s -> Tidy s -> load_main fs c f s = (inl e, s') ->
+  heap s' = heap s /\ allm s' = allm (begin_op c s) /\ locals s' = locals s /\ constr s' = constr s /\
+  targets s' = targets s /\ curop s' = curop s.
+Proof. exact failed_load_restores_state. Qed.
+Print Assumptions C18_failed_load_restores_state.
+
+Theorem C18_reload_as_if_never_failed : forall fs c f s e s',
+  Stable s -> Tidy s -> load_main fs c f s = (inl e, s') ->
+  forall fs' f', load_main fs' c f' s' = load_main fs' c f' s.
+Proof. exact reload_as_if_never_failed. Qed.
+Print Assumptions C18_reload_as_if_never_failed.
+
+Theorem C18_reload_in_every_history : forall c builtins fs0 ops fs f e s',
+  let s := run_hist c fs0 (init_state builtins) ops in
+  load_main fs c f s = (inl e, s') -> forall fs' f', load_main fs' c f' s' = load_main fs' c f' s.
+Proof. exact reload_in_history. Qed.
+Print Assumptions C18_reload_in_every_history.
+
+Theorem C18_failing_load_is_invisible : forall c fs f s e s' ops fs' f',
+  Stable s -> Tidy s -> load_main fs c f s = (inl e, s') ->
+  run_hist c fs' s' (OLoad f' :: ops) = run_hist c fs' s (OLoad f' :: ops).
+Proof. exact failing_load_is_invisible. Qed.
+Print Assumptions C18_failing_load_is_invisible.
+
+Theorem C18_histories_stable_tidy : forall c ops fs s,
+  Stable s -> Tidy s -> Stable (run_hist c fs s ops) /\ Tidy (run_hist c fs s ops).
+Proof. exact run_hist_stable_tidy. Qed.
+Print Assumptions C18_histories_stable_tidy.
+
+(* MAIN MODELS LOADED FROM A STRING (metamodel.model_from_str without a file name; the GlobalRepo providers register
+   such a model under an invented name 'anonymousN', key |files|+N in the model).  Same statements: a failing
+   string load - syntax error, unresolved reference, object processor, model processor, failure in a file the
+   providers load - leaves the repositories exactly as they were (the invented entry is removed, earlier string
+   models stay), and whatever failed, a file load or a string load, every following file load or string load is
+   literally what it would have been without the failed attempt. *)
+Theorem C18_clean_string_main : forall fs c fc s e s',
+  Stable s -> load_str fs c fc s = (inl e, s') ->
+  allm s' = allm (begin_op c s) /\ (forall x, x < length (heap s) -> local_of x s' = local_of x s) /\ Stable s'.
+Proof. exact load_str_failure_clean. Qed.
+Print Assumptions C18_clean_string_main.
+
+Theorem C18_next_load_as_if_never_failed : forall c s s',
+  Stable s -> Tidy s ->
+  (exists fs f e, load_main fs c f s = (inl e, s')) \/ (exists fs fc e, load_str fs c fc s = (inl e, s')) ->
+  (forall fs' f', load_main fs' c f' s' = load_main fs' c f' s) /\
+  (forall fs' fc', load_str fs' c fc' s' = load_str fs' c fc' s).
+Proof. exact next_load_as_if_never_failed. Qed.
+Print Assumptions C18_next_load_as_if_never_failed.
+
+Theorem C18_next_load_in_every_history : forall c builtins fs0 ops s',
+  let s := run_hist c fs0 (init_state builtins) ops in
+  (exists fs f e, load_main fs c f s = (inl e, s')) \/ (exists fs fc e, load_str fs c fc s = (inl e, s')) ->
+  (forall fs' f', load_main fs' c f' s' = load_main fs' c f' s) /\
+  (forall fs' fc', load_str fs' c fc' s' = load_str fs' c fc' s).
+Proof. exact next_load_in_history. Qed.
+Print Assumptions C18_next_load_in_every_history.
+
+(* non-vacuity: global repository, GlobalRepo pattern reaching files 0 and 1; an earlier string model (anonymous0,
+   key 2), then a string main whose model processor fails (the second defect fixed for this property): the
+   repository is what it was, the earlier string model and the files stay, the repaired string loads as anonymous1 *)
+Example C18_string_main_witness :
+  let fs := [mkFile [[0; 1]] [100%N] [] false false false; mkFile [[0; 1]] [101%N] [] false false false] in
+  let c := init_cfg true false [] in
+  let s := run_hist c fs (init_state []) [OLoadStr (mkFile [[0; 1]] [103%N] [100%N] false false false)] in
+  let bad := mkFile [[0; 1]] [104%N] [104%N; 101%N] false false true in
+  let good := mkFile [[0; 1]] [104%N] [104%N; 101%N] false false false in
+  allm s = [(2, 0); (0, 1); (1, 2)] /\
+  fst (load_str fs c bad s) = inl (EMp 3) /\ allm (snd (load_str fs c bad s)) = [(2, 0); (0, 1); (1, 2)] /\
+  fst (load_str fs c good (snd (load_str fs c bad s))) = inr 3 /\
+  allm (snd (load_str fs c good (snd (load_str fs c bad s)))) = [(2, 0); (0, 1); (1, 2); (3, 3)] /\
+  load_str fs c good (snd (load_str fs c bad s)) = load_str fs c good s.
+Proof. vm_compute. repeat split; reflexivity. Qed.
+Print Assumptions C18_string_main_witness.
+
+(* The un-collected load (load_main_raw) leaves the models of a failed attempt unreachable: this is what
+   justifies dropping them.  Same statement as C18_clean, on the raw function. *)
+Theorem C18_clean_before_collection : forall fs c f s e s',
+  Stable s -> load_main_raw fs c f s = (inl e, s') ->
+  allm s' = allm (begin_op c s) /\
+  (forall x, x < length (heap s) -> local_of x s' = local_of x s) /\
+  Stable s'.
+Proof. exact load_main_failure_clean_raw. Qed.
+Print Assumptions C18_clean_before_collection.
+
 (* The state between loads stays well formed along every history (used by all of the above). *)
 Theorem C18_histories_stable : forall c ops fs s, Stable s -> Stable (run_hist c fs s ops).
 Proof. exact run_hist_stable. Qed.
@@ -58,7 +153,8 @@ Print Assumptions C18_histories_stable.
 (* non-vacuity: global repository; an earlier load cached file 2; then a diamond 0 -> {1,2}, 1 -> 2
    whose MAIN model's model processor fails (the case that was broken before the fix): nothing of
    the attempt remains, the earlier model stays, and after the repair the load succeeds with
-   fresh models for 0 and 1 and the cached model for 2. *)
+   fresh models for 0 and 1 and the cached model for 2 - literally the load that would have happened without
+   the failed attempt. *)
 Example C18_clean_witness :
   let bad := [mkFile [[1]; [2]] [100%N] [101%N; 102%N] false false true;
               mkFile [[2]] [101%N] [102%N] false false false;
@@ -71,8 +167,9 @@ Example C18_clean_witness :
   Stable s /\ allm s = [(2, 0)] /\
   fst (load_main bad c 0 s) = inl (EMp 0) /\ reads (snd (load_main bad c 0 s)) = [0; 1] /\
   allm (snd (load_main bad c 0 s)) = [(2, 0)] /\
-  fst (load_main good c 0 (snd (load_main bad c 0 s))) = inr 3 /\
-  allm (snd (load_main good c 0 (snd (load_main bad c 0 s)))) = [(2, 0); (0, 3); (1, 4)].
+  fst (load_main good c 0 (snd (load_main bad c 0 s))) = inr 1 /\
+  allm (snd (load_main good c 0 (snd (load_main bad c 0 s)))) = [(2, 0); (0, 1); (1, 2)] /\
+  load_main good c 0 (snd (load_main bad c 0 s)) = load_main good c 0 s.
 Proof.
   cbn zeta. split; [apply run_hist_stable, Stable_init|]. vm_compute. repeat split; reflexivity.
 Qed.
